@@ -4,8 +4,10 @@ package harness
 
 import (
 	"fmt"
+	"runtime"
 	"sort"
 	"strings"
+	"sync/atomic"
 	"testing"
 	"time"
 
@@ -39,7 +41,7 @@ func (s upStep) String() string {
 		return fmt.Sprintf("drop#%d", s.Cand)
 	case "heldProbeBurst":
 		return fmt.Sprintf("heldProbeBurst(%s,probe+%s+upgrade)", s.Tr, s.Pkt)
-	case "conformant", "probeEarly", "conformantSendAtTick", "conformantSecondDuringSwitch":
+	case "conformant", "probeEarly", "conformantSendAtTick", "conformantSecondDuringSwitch", "eagerUpgradeInsideFlush":
 		return fmt.Sprintf("%s(%s,repoll=%d)", s.Kind, s.Tr, s.N)
 	case "conformantLatePoll":
 		return fmt.Sprintf("conformantLatePoll(%s,+%v,repoll=%d)", s.Tr, s.D, s.N)
@@ -69,7 +71,7 @@ func genC08(rt *rapid.T, gates bool, knownProbe bool, col *Collector) upCase {
 		l := fmt.Sprintf("s%d", i)
 		kinds := []string{"open", "open", "open", "send", "clientMsg", "poll", "advance"}
 		if rapid.IntRange(0, 7).Draw(rt, l+".conf") == 0 {
-			kinds = append(kinds, "conformant", "conformantLatePoll", "conformantSendAtTick", "conformantSecondDuringSwitch")
+			kinds = append(kinds, "conformant", "conformantLatePoll", "conformantSendAtTick", "conformantSecondDuringSwitch", "eagerUpgradeInsideFlush")
 		}
 		if gates {
 			kinds = append(kinds, "heldProbeBurst")
@@ -112,7 +114,7 @@ func genC08(rt *rapid.T, gates bool, knownProbe bool, col *Collector) upCase {
 			st.Tr = rapid.SampledFrom(trs).Draw(rt, l+".tr")
 			st.Pkt = rapid.SampledFrom([]string{"pingOther", "pong", "message", "noop", "garbage"}).Draw(rt, l+".burst")
 			ncand++
-		case "conformant", "probeEarly", "conformantLatePoll", "conformantSendAtTick", "conformantSecondDuringSwitch":
+		case "conformant", "probeEarly", "conformantLatePoll", "conformantSendAtTick", "conformantSecondDuringSwitch", "eagerUpgradeInsideFlush":
 			st.Tr = rapid.SampledFrom(trs).Draw(rt, l+".tr")
 			st.D = time.Duration(rapid.SampledFrom([]int{0, 50, 100, 150, 250, 1000}).Draw(rt, l+".late")) * time.Millisecond
 			st.N = rapid.SampledFrom([]int{0, 0, 1, 2}).Draw(rt, l+".repoll")
@@ -395,9 +397,16 @@ func runC08(c upCase) (fail string, stats map[string]bool) {
 	// is in progress on the candidate's reader goroutine) another candidate for the same session connects and probes
 	secondDuringSwitch := false
 	var intruder *upCand
+	// armed by eagerUpgradeInsideFlush: the application's flush listener is still running (the session's flush has
+	// tested the transport and not yet handed the batch over) when the candidate's upgrade packet switches transports
+	eagerInFlush := false
+	var holdFlush atomic.Pointer[func()]
 	uw.sr.Sock.On("flush", func(...any) {
 		if lingerFlush {
 			linger()
+		}
+		if h := holdFlush.Swap(nil); h != nil {
+			(*h)()
 		}
 	})
 	conformant := func(tr string, early bool) string {
@@ -465,6 +474,49 @@ func runC08(c upCase) (fail string, stats map[string]bool) {
 		r := cand.recv()
 		if len(r) == 0 || r[len(r)-1].Type != tPong || string(r[len(r)-1].Data) != "probe" {
 			return fmt.Sprintf("conformant %s candidate: probe ping not answered with a probe pong (candidate received %v)", tr, r)
+		}
+		if eagerInFlush {
+			eagerInFlush = false
+			if pc.Poll != nil && len(uw.sr.Closes) == 0 {
+				// an eager client: it does not wait for its poll to come back before it switches. The application
+				// sends meanwhile; that flush is inside its 'flush' listener when the upgrade packet is processed
+				var entered, switched atomic.Bool
+				h := func() {
+					entered.Store(true)
+					for k := 0; k < 200000 && !switched.Load(); k++ {
+						runtime.Gosched()
+					}
+				}
+				holdFlush.Store(&h)
+				uw.sr.Sock.Once("upgrade", func(...any) { switched.Store(true) })
+				p := msgT(fmt.Sprintf("down%d inside the switch", len(uw.sentDown)))
+				uw.sentDown = append(uw.sentDown, p)
+				go w.AppSend(uw.sr, p, nil, false, 0)
+				for k := 0; k < 200000 && !entered.Load(); k++ {
+					runtime.Gosched()
+				}
+				cand.send(ctl(tUpgrade))
+				Settle()
+				holdFlush.Store(nil)
+				if entered.Load() && switched.Load() {
+					stats["upgrade-packet-while-a-flush-is-in-progress"] = true
+				}
+				if got := uw.sr.Sock.Transport().Name(); got != tr {
+					return fmt.Sprintf("eager %s candidate (upgrade packet while the application's flush listener runs): the session's transport is %q", tr, got)
+				}
+				cand.isUp = true
+				uw.cur = cand
+				uw.upgrading = nil
+				time.Sleep(time.Millisecond)
+				Settle()
+				if f := uw.pumpDown(); f != "" {
+					return f
+				}
+				if len(uw.sr.Closes) == 0 && len(uw.gotDown) != len(uw.sentDown) {
+					return fmt.Sprintf("eager %s candidate (upgrade packet while the application's flush listener runs): the session is open on %s, the application sent %s, the client has received %s", tr, tr, pktsString(uw.sentDown), pktsString(uw.gotDown))
+				}
+				return ""
+			}
 		}
 		if sendAtTick && pc.Poll != nil {
 			// the application sends at the very instant of the server's next poll-release tick, and its flush takes
@@ -587,6 +639,12 @@ func runC08(c upCase) (fail string, stats map[string]bool) {
 				return what + ": " + f, stats
 			}
 			secondDuringSwitch = false
+		case "eagerUpgradeInsideFlush":
+			eagerInFlush = true
+			if f := conformant(st.Tr, false); f != "" {
+				return what + ": " + f, stats
+			}
+			eagerInFlush = false
 		case "conformantSendAtTick":
 			rePolls, sendAtTick = st.N, true
 			if f := conformant(st.Tr, false); f != "" {
@@ -887,7 +945,7 @@ func TestC08Upgrade(t *testing.T) {
 	if !knownProbe {
 		req = append(req, "probe-before-listeners")
 	}
-	req = append(req, "burst-while-probe-pong-is-being-written", "second-candidate-during-the-switch", "perMessageDeflate-configured")
+	req = append(req, "burst-while-probe-pong-is-being-written", "second-candidate-during-the-switch", "perMessageDeflate-configured", "upgrade-packet-while-a-flush-is-in-progress")
 	col.RequireClasses(t, req...)
 }
 
